@@ -15,23 +15,49 @@ OBLIGATIONS = [NS + t for t in [
     "without_replacement_spec", "without_replacement_guard",
     "with_replacement_spec", "with_replacement_guard", "weighted_never_zero",
     "gboost_spec", "ball_inside",
+    # gap-closing round: edge cases of sampling.cpp
+    "without_full_is_sorted_input", "without_replacement_submultiset", "sampling_zero",
+    # sample_from_ball with the rounding of the answer made explicit (Cauchy-Schwarz on lists)
+    "dotL_sq_le", "sumSq_add_le", "ball_inside_rounded",
+    # make_rng(seed) = minstd_rand, generate_canonical, libstdc++ discrete_distribution as coded
+    "lcgSeed_range", "lcgNext_range", "canonNum_pos", "canonNum_lt", "lowerBound_spec", "lowerBound_all_false", "ddCp_get",
+    "ddDraw_positive", "weighted_never_zero_model", "weighted_no_comparison_first_sample",
+    # gboost::sampler_t as an object (count, weights, generator inside)
+    "drawsG_length", "drawsG_forall", "sampler_count_le", "sampler_weights_formula", "sampler_off_spec", "sampler_subsample_spec",
+    "sampler_bootstrap_spec", "sampler_weighted_spec", "sampler_mode_spec", "sampler_sample_frame", "sampler_run_spec",
+    # splitters as objects: the parameters are the only state
+    "Splitter.fresh_ok", "splitter_set_spec", "splitter_seed_restore", "hist_split_function", "hist_clone_copies",
+    "hist_objects_oracle_free", "hist_equal_params_equal_splits", "hist_splits_keep_objects",
 ]]
 TRUSTED = [
-    "Lean 4.33.0 kernel; Mathlib modules imported by NanoVerif/Proofs/Split.lean and NanoVerif/Props/C12.lean",
+    "Lean 4.33.0 kernel; Mathlib modules imported by NanoVerif/Proofs/Split.lean, SplitDiscrete.lean, SplitSampler.lean and NanoVerif/Props/C12.lean",
     "axioms: at most propext, Classical.choice, Quot.sound (audited per theorem on every run)",
     "hand-written model NanoVerif/Model/Split.lean of kfold.cpp / random.cpp / sampling.cpp / gboost/sampler.cpp, tied to the code by the "
     "correspondence run (harness/c12.cpp on the real library vs the compiled Lean driver, exact comparison of every index list)",
+    "hand-written model NanoVerif/Model/SplitSampler.lean: make_rng(seed) (std::minstd_rand), libstdc++ 12 generate_canonical<double,53> and "
+    "discrete_distribution (_M_initialize, operator(), std::lower_bound) as coded, gboost::sampler_t as an object (constructor, sample, "
+    "consecutive calls), the splitters as objects with their registered parameters; tied by the families `sampler`, `wwith` (the driver "
+    "computes every weighted draw from the SEED; the positions of the real std::discrete_distribution are only a monitor) and `hist`",
     "tools/props/c12.py: the translator of idiv/iround (numeric.h) and of the splitter parameter domains into NanoVerif/Gen/, "
     "the generator and the set-structure oracle; harness/c12.cpp; g++/libstdc++/Eigen",
     "oracles of the model (inputs of the theorems, reproduced by the harness with the same standard library and checked by the driver "
     "to satisfy their contract on every case): std::shuffle returns a permutation that is a function of the generator state; "
-    "uniform_int_distribution(0,n-1) returns a position in range; discrete_distribution never returns a position of weight 0; "
-    "std::sort returns a sorted permutation (SortSpec, instantiated with List.mergeSort)",
+    "uniform_int_distribution(0,n-1) returns a position in range; std::sort returns a sorted permutation (SortSpec, instantiated with "
+    "List.mergeSort). No longer an oracle: `discrete_distribution never returns a position of weight 0` is theorem ddDraw_positive / "
+    "weighted_never_zero_model about the model of the libstdc++ code in exact arithmetic (binary64 rounding of the cumulative table is "
+    "not covered by the theorem; the run-time monitor `zero-weight` of the property oracle stays on every case)",
+    "outside: the overloads without a generator argument and make_rng() without seed read std::random_device; their answers go to the "
+    "property oracle only (family `unseeded`); splitter_t::all() / the factory is C19's",
 ]
 ASSUMPTIONS = [
     "integer arithmetic of idiv is modelled over Int (no int64 overflow: train_per * n < 2^63)",
-    "asserts are compiled out in the release build: count > n for sampling without replacement, an empty sample list for sampling with "
-    "replacement, negative or all-zero weights are never generated; the model returns none there",
+    "asserts are compiled out in the release build (-DNDEBUG): count > n for sampling without replacement, an empty sample list for "
+    "sampling with replacement with count > 0 and weights LONGER than the samples read outside the tensors and are never executed (the "
+    "model returns none there; sampler_count_le shows the gboost caller never asks count > n). Negative, NaN, infinite, all-zero weights "
+    "and weights SHORTER than the samples are defined behaviour and ARE executed and compared (exactly) with the model",
+    "the property's clause `never an index of zero weight` is evaluated only where it has a valid answer: one finite non-negative weight "
+    "per sample, not all zero. With all-zero weights (e.g. every per-sample loss exactly 0) the code returns `count` copies of the FIRST "
+    "sample (theorem weighted_no_comparison_first_sample, corpus line): reported as an observation, not a violation",
     "ball_inside is a theorem of exact arithmetic (ordered field) with the 2-norm as an oracle s (s*s = sum of squares); the binary64 "
     "result is only tested (inside the ball up to relative 1e-12)",
     "uniformity of the draws is a statistical property and is not claimed",
@@ -39,15 +65,21 @@ ASSUMPTIONS = [
     "splitter on every n x folds x train_per in 10..90 step 10 with 4 seeds each plus every train_per 10..90 for n in 1..40; the quick tier "
     "uses 21 seeds per (n, folds) cell ({0,1,42,1023,1024} + 16 consecutive ones, the block moving through the domain); the theorems cover "
     "every permutation, i.e. every seed",
-    "sample_from_ball is compared bit-for-bit in practice (tolerance 1e-12 allowed); its oracle accepts |x - x0| <= radius(1+1e-12) plus "
-    "half an ulp per coordinate of x (x0 + d cannot be represented more accurately when |x0| >> radius)",
+    "sample_from_ball is compared bit-for-bit in practice (tolerance 1e-12 allowed); its oracle accepts, exactly evaluated over the "
+    "rationals, |x - x0| <= radius*(1 + (n+8)*2^-53) + sqrt(sum_k (ulp(x_k)/2 + 2^-1073)^2): the first allowance is the rounding of the "
+    "displacement (relative to the radius), the second the rounding of x0_k + d_k to binary64 (half an ulp of the RESULT coordinate, "
+    "i.e. of the size ulp(|x0|), independent of the radius); radii from 5e-324 to 1e290 and centres up to 1e300 are generated",
 ]
 RULE = ("corpus; exhaustive n in 2..40 x folds in 2..min(n,12) for k-fold (quick: seeds {0,1,42,1023,1024} + 16 moving through the domain per cell; "
         "thorough: all 1025 seeds) and x train_per in 10..90 step 10 for the random splitter (1 / 4 seeds per cell) plus arbitrary train_per; "
         "sample values non-contiguous, sometimes unordered; folds > n, n in {0,1}, folds at the domain bounds; parameter values outside the "
         "domains; random n up to 5000; sampling with/without replacement for every count 0..n (n <= 16) and random counts (n up to 5000); "
         "weighted sampling with zero weights and a single positive weight; the gboost sampler in its five modes with 1-3 consecutive calls; "
-        "sample_from_ball in every dimension 1..50, radii 1e-6..1e6. A case is non-trivial when n mod folds != 0 (k-fold), when "
+        "sample_from_ball in every dimension 1..50, radii 1e-6..1e6 plus radii down to denormals with centres up to 1e300; histories over "
+        "splitter objects (split twice, clone after a split, change and restore the seed, refused values, random commands); sampler_t "
+        "objects in five modes with 1-4 calls and zero / NaN / infinite / negative / underflowing losses and gradients, compared with a twin "
+        "object; weighted sampling with odd weights (zero, NaN, inf, negative, short, denormal); unsorted inputs with duplicates; the "
+        "overloads without a generator (oracle only). A case is non-trivial when n mod folds != 0 (k-fold), when "
         "train_per*n/100 is not an integer (random), when count > 0 (samplers), mode != off (gboost), always for the ball; distinct by op text")
 FLAVOUR = {"quick": "plain", "thorough": "asan"}
 EXHAUSTIVE = {"quick": False, "thorough": True}
@@ -294,6 +326,117 @@ def ball_op(rng, dim=None):
     return f"split ball {lst(x0, f2h)} {f2h(radius)} {rng.range(0, 1 << 31)}"
 
 
+
+def loss_values(rng, total, gdim, kind):
+    """the flat total x gdim values of one sampler call (loss = first of the row, gradient = the row)"""
+    if kind == "zero":
+        return [0.0] * (total * gdim)
+    per = weights_with_zeros(rng, total)
+    per = [1.5 if (w != 0.0 and not 1e-100 < w < 1e100) else w for w in per]
+    values = [0.0] * (total * gdim)
+    for i in range(total):
+        if per[i] != 0.0:
+            for g in range(gdim):
+                values[i * gdim + g] = per[i] * rng.uniform(-1.0, 1.0) if (g > 0 and rng.chance(0.7)) else (per[i] if g == 0 else 0.0)
+    if kind == "nan":
+        values[rng.below(total) * gdim] = float("nan")
+    elif kind == "inf":
+        values[rng.below(total) * gdim] = float("inf")
+    elif kind == "negative":
+        for _ in range(rng.range(1, 3)):
+            values[rng.below(total) * gdim] = -rng.uniform(0.1, 5.0)
+    elif kind == "equal":
+        values = [1.0 if g == 0 else 0.0 for _ in range(total) for g in range(gdim)]
+    elif kind == "tiny":  # squares underflow: the gradient norm is exactly 0 although the gradient is not
+        values = [rng.choice([1e-200, -1e-180, 0.0, 1.0]) for _ in range(total * gdim)]
+    return values
+
+
+def sampler_op(rng, mode, n, ratio, calls, kinds=None, unordered=False):
+    total = n + rng.range(0, 6)
+    gdim = rng.range(1, 4) if mode == "wei_grad_bootstrap" else rng.range(1, 2)
+    samples = make_samples(rng, n, 0, total)
+    if unordered:
+        samples = rng.shuffle(samples)
+    vals = []
+    for c in range(calls):
+        kind = kinds[c] if kinds else rng.choice(["plain", "plain", "plain", "zero", "nan", "inf", "negative", "equal", "tiny"])
+        vals.append(lst(loss_values(rng, total, gdim, kind), f2h))
+    return f"split sampler {mode} {lst(samples)} {rng.range(0, 1024)} {f2h(ratio)} {total} {gdim} {calls} " + " ".join(vals)
+
+
+def hist_op(rng, kind, k, scripted=None):
+    """a history over splitter objects: parameter changes (valid and refused), splits, clones"""
+    n = rng.range(1, 24)
+    samples = make_samples(rng, n)
+    slots = 1
+    cmds = []
+    if scripted == "twice":       # the same object asked twice, then a clone taken after the splits
+        cmds = [f"split 0 {lst(samples)}", f"split 0 {lst(samples)}", "clone 0", f"split 1 {lst(samples)}", f"split 0 {lst(samples)}"]
+    elif scripted == "restore":   # change the seed and restore it: the split must come back
+        s0 = rng.range(0, 1024)
+        cmds = [f"set 0 seed {s0}", f"set 0 folds {rng.range(2, 6)}", f"split 0 {lst(samples)}", f"set 0 seed {(s0 + 1 + rng.below(1024)) % 1025}",
+                f"split 0 {lst(samples)}", f"set 0 seed {s0}", f"split 0 {lst(samples)}", "clone 0", f"split 1 {lst(samples)}"]
+    elif scripted == "refused":   # a refused value must leave the object as it was
+        cmds = [f"set 0 folds {rng.range(2, 5)}", f"split 0 {lst(samples)}", f"set 0 folds {rng.choice([0, 1, 101, -3, 1 << 40])}",
+                f"set 0 seed {rng.choice([1025, -1, 1 << 33])}", f"set 0 train_per {rng.choice([9, 91, 50])}", f"split 0 {lst(samples)}"]
+    else:
+        for _ in range(k):
+            c = rng.below(10)
+            slot = rng.below(slots) if not rng.chance(0.03) else slots + rng.below(2)
+            if c < 4:
+                other = make_samples(rng, rng.range(0, 12)) if rng.chance(0.3) else samples
+                cmds.append(f"split {slot} {lst(other)}")
+            elif c < 6:
+                cmds.append(f"set {slot} seed {rng.choice([0, 1, 42, 1024, rng.range(0, 1024), 1025, -1])}")
+            elif c < 8:
+                cmds.append(f"set {slot} folds {rng.choice([2, 3, 5, rng.range(2, 12), 100, 1, 101])}")
+            elif c < 9:
+                cmds.append(f"set {slot} train_per {rng.choice([10, 50, 90, rng.range(10, 90), 9, 91])}")
+            else:
+                cmds.append(f"clone {slot}")
+                if slot < slots:
+                    slots += 1
+    return f"split hist {kind} {len(cmds)} " + " ".join(cmds)
+
+
+def odd_weights(rng, n, kind):
+    if kind == "zero":
+        return [0.0] * n
+    w = weights_with_zeros(rng, n)
+    if kind == "nan":
+        w[rng.below(n)] = float("nan")
+    elif kind == "inf":
+        w[rng.below(n)] = float("inf")
+    elif kind == "negative":
+        w[rng.below(n)] = -rng.uniform(0.1, 3.0)
+    elif kind == "short":
+        w = w[: rng.range(0, n - 1)] if n > 1 else []
+    elif kind == "denormal":
+        w = [rng.choice([0.0, 5e-324, 1e-310]) for _ in range(n)]
+    return w
+
+
+def with_duplicates(rng, n):
+    """unsorted inputs with repeated values"""
+    base = make_samples(rng, max(1, n // 2))
+    return [rng.choice(base) for _ in range(n)]
+
+
+def tiny_ball_op(rng):
+    """radii down to denormals, centres up to 1e300: the rounding of x0 + d dominates the radius"""
+    n = rng.range(1, 50)
+    radius = rng.choice([5e-324, 1e-320, 1e-310, 2.2250738585072014e-308, 10.0 ** rng.uniform(-300.0, -6.0), 10.0 ** rng.uniform(-12.0, 0.0),
+                         10.0 ** rng.uniform(0.0, 290.0)])
+    scale = rng.choice([0.0, 1.0, 1e8, 1e16, 1e100, 1e300, radius * 1e8, radius * 1e9, radius * 1e12, radius * 1e17])
+    scale = min(scale, 1e300)
+    x0 = [rng.uniform(-1.0, 1.0) * scale for _ in range(n)]
+    if rng.chance(0.3):  # one huge coordinate, the others small
+        x0 = [v * 1e-30 for v in x0]
+        x0[rng.below(n)] = scale if rng.chance(0.5) else -scale
+    return f"split ball {lst(x0, f2h)} {f2h(radius)} {rng.range(0, 1 << 31)}"
+
+
 def gen(rng, tier):
     thorough = tier == "thorough"
     ops = []
@@ -386,6 +529,43 @@ def gen(rng, tier):
         ops.append(ball_op(rng, d))
     for _ in range(1000 if thorough else 50):
         ops.append(ball_op(rng))
+
+    # -- gap-closing round: objects, edge cases, unseeded overloads ----------------------------------------------------
+    for kind in ("kfold", "random"):
+        for scripted in ("twice", "restore", "refused"):
+            for _ in range(12 if thorough else 4):
+                ops.append(hist_op(rng, kind, 0, scripted))
+        for _ in range(200 if thorough else 40):
+            ops.append(hist_op(rng, kind, rng.range(2, 14)))
+    for mode in MODES:
+        for n in list(range(1, 9)) + [rng.range(9, 60) for _ in range(6 if thorough else 2)] + [rng.range(60, 600)]:
+            for ratio in [1.0, rng.choice([0.5, 0.1, 0.9]), rng.uniform(0.01, 1.0)]:
+                ops.append(sampler_op(rng, mode, n, ratio, rng.range(1, 4), unordered=rng.chance(0.3)))
+        if mode.startswith("wei"):
+            for kind in ["zero", "nan", "inf", "negative", "equal", "tiny"]:
+                for n in [1, 2, 3, rng.range(4, 30)]:
+                    ops.append(sampler_op(rng, mode, n, rng.choice([1.0, 0.5, 0.75]), 3, kinds=["plain", kind, "plain"]))
+    for kind in ["zero", "nan", "inf", "negative", "short", "denormal"]:
+        for n in [1, 2, 3, 5, rng.range(6, 40)] + ([rng.range(40, 2000)] if thorough else []):
+            for _ in range(3 if thorough else 1):
+                ops.append(f"split wwith {lst(make_samples(rng, n))} {lst(odd_weights(rng, n, kind), f2h)} {rng.choice([0, 1, n, 2 * n + 1])} {rng.range(0, 1 << 20)}")
+    for n in list(range(1, 13)) + [rng.range(13, 300)]:   # unsorted inputs with duplicates: count = n, 0 and in between
+        for count in sorted({0, n, n - 1, rng.range(0, n)}):
+            d = with_duplicates(rng, n)
+            ops.append(f"split without {lst(d)} {count} {rng.range(0, 1 << 20)}")
+            ops.append(f"split with {lst(d)} {count} {rng.range(0, 1 << 20)}")
+        u = rng.shuffle(make_samples(rng, n))
+        ops.append(f"split without {lst(u)} {n} {rng.range(0, 1 << 20)}")
+    for _ in range(20 if thorough else 6):
+        n = rng.range(1, 40)
+        smp = rng.shuffle(make_samples(rng, n))
+        ops.append(f"split unseeded without {lst(smp)} {rng.choice([0, n, rng.range(0, n)])}")
+        ops.append(f"split unseeded with {lst(smp)} {rng.choice([0, n, 2 * n, rng.range(0, n)])}")
+        ops.append(f"split unseeded wwith {lst(smp)} {lst(weights_with_zeros(rng, n), f2h)} {rng.range(0, 2 * n)}")
+        b = ball_op(rng).split()
+        ops.append("split unseeded " + rng.choice(["ball", "ballmap"]) + " " + " ".join(b[2:-1]))
+    for _ in range(2000 if thorough else 150):
+        ops.append(tiny_ball_op(rng))
     return ops
 
 
@@ -409,9 +589,16 @@ def nontrivial(op):
         t.ints(); return t.int() > 0
     if o == "wwith":
         t.ints(); t.fs(); return t.int() > 0
-    if o == "gboost":
+    if o in ("gboost", "sampler"):
         return t.s() != "off"
+    if o == "hist":
+        return op.count(" split ") >= 2
     return True
+
+
+def model_skip(aug):
+    """the overloads without a generator read std::random_device: nothing to hand to the model; oracle only"""
+    return aug.startswith("split unseeded ")
 
 
 def distribution(ops):
@@ -419,8 +606,16 @@ def distribution(ops):
     for op in ops:
         t, o = _head(op)
         key = o
-        if o == "gboost":
-            key = "gboost/" + t.s()
+        if o in ("gboost", "sampler", "unseeded"):
+            key = o + "/" + t.s()
+        elif o == "hist":
+            key = "hist/" + t.s()
+        elif o == "wwith":
+            smp = t.ints(); w = t.fs()
+            key = "wwith" if _valid_weights(smp, w) else "wwith/odd-weights"
+        elif o == "ball":
+            x0 = t.fs(); r = t.f()
+            key = "ball" if 1e-6 <= r <= 1e6 else "ball/extreme-radius"
         elif o in ("kfold", "random"):
             n = t.int()
             key = f"{o}/n<=40" if n <= 40 else f"{o}/n>40"
@@ -472,10 +667,178 @@ def _round_half_up(num, den):
     return math.floor(Fraction(num, den) + Fraction(1, 2))
 
 
+
+def _show(q):
+    try:
+        return repr(float(q))
+    except OverflowError:
+        return f"about 2^{q.numerator.bit_length() - q.denominator.bit_length()}"
+
+
+def _valid_weights(samples, weights):
+    """the weights the property speaks about: one per sample, finite, non-negative, not all zero"""
+    return (len(weights) == len(samples) and all(math.isfinite(w) and w >= 0.0 for w in weights)
+            and any(w > 0.0 for w in weights))
+
+
+def _selection_check(kind, samples, count, sel, weights=None):
+    """`count` sorted members (without: distinct whenever the input is); weighted: never an index of zero weight"""
+    if len(sel) != count:
+        return f"count: {len(sel)} indices returned, {count} asked"
+    if not set(sel) <= set(samples):
+        return "member: an index that is not in the input was returned"
+    if not _sorted(sel):
+        return "sorted: result not sorted"
+    if kind == "without":
+        # a sub-multiset of the input: no value more often than the input holds it (distinct input => strictly increasing)
+        have = {}
+        for v in samples:
+            have[v] = have.get(v, 0) + 1
+        for v in sel:
+            have[v] -= 1
+            if have[v] < 0:
+                return "distinct-sorted: an index returned more often than the input holds it (repeated)"
+        if count == len(samples) and sorted(samples) != sel:
+            return "distinct-sorted: all samples asked, the answer is not the sorted input"
+    if weights is not None and _valid_weights(samples, weights) and len(set(samples)) == len(samples):
+        zero = {s for s, w in zip(samples, weights) if not (w > 0.0)}
+        bad = sorted(set(sel) & zero)
+        if bad:
+            return f"zero-weight: indices of zero weight returned: {bad[:5]}"
+    return None
+
+
+def _splits_check(o, samples, folds, tp, pairs):
+    n = len(samples); sset = set(samples)
+    if len(pairs) != folds:
+        return f"folds: {len(pairs)} splits returned for {folds} folds"
+    for f, (train, valid) in enumerate(pairs):
+        why = _pair_check(samples, sset, train, valid)
+        if why:
+            return f"{why} (fold {f})"
+    if o == "kfold":
+        seen = set(); total = 0
+        for f, (_, valid) in enumerate(pairs):
+            if seen & set(valid):
+                return f"valid-overlap: validation folds overlap at fold {f}"
+            seen |= set(valid); total += len(valid)
+        if seen != sset or total != n:
+            return "valid-cover: the validation folds do not cover the input exactly once"
+        sizes = [len(v) for _, v in pairs]
+        chunk = n // folds
+        want = [chunk] * (folds - 1) + [n - (folds - 1) * chunk]
+        if sizes != want:
+            return f"valid-sizes: validation sizes {sizes[:14]} expected {want[:14]}"
+        if max(sizes) - min(sizes) >= folds or max(sizes) - min(sizes) != n % folds:
+            return f"valid-sizes: sizes differ by {max(sizes) - min(sizes)}, n mod folds = {n % folds}"
+    else:
+        want = _round_half_up(tp * n, 100)
+        for f, (train, valid) in enumerate(pairs):
+            if len(train) != want or len(valid) != n - want:
+                return f"train-size: {len(train)} training samples, round({tp}*{n}/100) = {want} (fold {f})"
+    return None
+
+
+def _oracle_hist(t, r):
+    """a history over splitter objects: the parameters are the only state. Every `set` succeeds exactly inside the domain,
+    every split has the promised structure for the parameter values in force, equals the split of a fresh object with those
+    values (flag of the harness) and equals every other split of the history made with equal values on equal samples"""
+    if not _DOM:
+        _DOM.append(domains())
+    d = _DOM[0]
+    kind = t.s(); k = t.int()
+    if r.s() != "ok" or r.int() != k:
+        return "answer: wrong number of answers"
+    objs = [dict(folds=d["folds"][1], seed=d["seed"][1], trainPer=d["trainPer"][1])]
+    seen = {}
+    for step in range(k):
+        cmd = t.s(); slot = t.int()
+        if cmd == "set":
+            name = t.s(); v = t.int()
+            out = r.s()
+            if not 0 <= slot < len(objs):
+                if out != "bad-slot":
+                    return "answer: bad slot"
+                continue
+            key = {"folds": "folds", "seed": "seed", "train_per": "trainPer"}[name]
+            ok = d[key][0] <= v <= d[key][2] and not (name == "train_per" and kind == "kfold")
+            if ok != (out == "ok"):
+                return (f"domain: parameter value {name} = {v} outside its domain was accepted (step {step})" if out == "ok"
+                        else f"domain: parameter value {name} = {v} inside its domain was refused (step {step})")
+            if ok:
+                objs[slot][key] = v
+        elif cmd == "clone":
+            out = r.s()
+            if 0 <= slot < len(objs):
+                objs.append(dict(objs[slot]))
+        else:
+            samples = t.ints()
+            if not 0 <= slot < len(objs):
+                r.s()
+                continue
+            if r.s() != "S":
+                return f"answer: no split answered at step {step}"
+            fresh = r.int(); nf = r.int()
+            pairs = [(r.ints(), r.ints()) for _ in range(nf)]
+            o = objs[slot]
+            if len(set(samples)) == len(samples):
+                why = _splits_check(kind, samples, o["folds"], o["trainPer"], pairs)
+                if why:
+                    return f"{why} (step {step})"
+            if fresh != 1:
+                return f"determinism: equal seeds gave different splits: step {step} differs from a fresh object with the same parameters"
+            key = (o["folds"], o["seed"], o["trainPer"] if kind == "random" else 0, tuple(samples))
+            if key in seen and seen[key][1] != pairs:
+                return f"determinism: equal seeds gave different splits: steps {seen[key][0]} and {step} of one history"
+            seen.setdefault(key, (step, pairs))
+    if not r.done():
+        return "answer: trailing output"
+    return None
+
+
+def _oracle_sampler(t, r):
+    mode = t.s(); samples = t.ints(); t.int(); ratio = t.f(); total = t.int(); gdim = t.int(); calls = t.int()
+    n = len(samples)
+    count = int(ratio * float(n))
+    if r.s() != "ok":
+        return "answer: implementation did not answer ok"
+    same = r.int()
+    if r.int() != calls:
+        return "calls: wrong number of answers"
+    for c in range(calls):
+        values = t.fs()
+        sel = r.ints()
+        if mode == "off":
+            if sel != samples:
+                return "off: the samples were not returned unchanged"
+            continue
+        weights = None
+        if mode == "wei_loss_bootstrap":
+            weights = [values[s * gdim] for s in samples]
+        elif mode == "wei_grad_bootstrap":
+            weights = [math.sqrt(sum(values[s * gdim + g] ** 2 for g in range(gdim))) for s in samples]
+        why = _selection_check("without" if mode == "subsample" else "with", samples, count, sel, weights)
+        if why:
+            return f"{why} (call {c})"
+    if same != 1:
+        return "determinism: a second sampler object with the same arguments and calls answered differently"
+    return None
+
+
 def oracle(op, res):
     t, o = _head(op)
     r = Toks(res)
+    if o == "hist":
+        return _oracle_hist(t, r)
+    if o == "sampler":
+        return _oracle_sampler(t, r)
+    if o == "unseeded":
+        o = t.s()
+        if o == "ballmap":
+            o = "ball"
     status = r.s()
+    if status == "not-a-function-of-the-generator":
+        return "determinism: the same generator state gave another answer / the generator did not advance as the standard-library calls do"
     if o in ("kfold", "random"):
         samples = t.ints(); folds = t.int(); seed = t.int()
         tp = t.int() if o == "random" else None
@@ -531,22 +894,7 @@ def oracle(op, res):
         weights = t.fs() if o == "wwith" else None
         count = t.int()
         sel = r.ints()
-        if len(sel) != count:
-            return f"count: {len(sel)} indices returned, {count} asked"
-        sset = set(samples)
-        if not set(sel) <= sset:
-            return "member: an index that is not in the input was returned"
-        if o == "without":
-            if not _strictly_sorted(sel):
-                return "distinct-sorted: result not strictly increasing (unsorted or repeated)"
-        elif not _sorted(sel):
-            return "sorted: result not sorted"
-        if o == "wwith":
-            zero = {s for s, w in zip(samples, weights) if not (w > 0.0)}
-            bad = sorted(set(sel) & zero)
-            if bad:
-                return f"zero-weight: indices of zero weight returned: {bad[:5]}"
-        return None
+        return _selection_check("without" if o == "without" else "with", samples, count, sel, weights)
 
     if o == "gboost":
         mode = t.s(); samples = t.ints(); t.int(); ratio = t.f(); calls = t.int(); total = t.int(); gdim = t.int()
@@ -584,17 +932,24 @@ def oracle(op, res):
             return "dimension: wrong dimension"
         if not all(math.isfinite(v) for v in x):
             return "finite: non-finite coordinate"
+        # exact distance of the binary64 answer from the centre, against the radius plus the two rounding allowances that the
+        # exact theorem `ball_inside` does not cover, both explicit and both INDEPENDENT of each other:
+        #   (1) the displacement radius*z*u_k/|u| is computed with a few roundings: relative (n + 8) * 2^-53 of the radius, and
+        #       2^-1073 absolute per coordinate where the products are subnormal;
+        #   (2) x0_k + d_k is rounded to binary64: at most half an ulp OF THE RESULT COORDINATE (a quantity of the size
+        #       ulp(|x0|), not of the radius: for radius << ulp(|x0|) the answer is x0 itself or a neighbour).
+        n = len(x0)
         d2 = sum((Fraction(a) - Fraction(b)) ** 2 for a, b in zip(x, x0))
-        # the coordinates are rounded to binary64: half an ulp per coordinate is the representation limit of x0 + d
-        slack2 = sum(Fraction(math.ulp(a)) ** 2 for a in x) / 4
-        bound = Fraction(radius) * (1 + Fraction(BALL_RTOL))
-        dist = math.sqrt(float(d2))
+        bound = Fraction(radius) * (1 + Fraction(n + 8, 2 ** 53))
         if d2 <= bound * bound:
             return None
-        lim = float(bound) + math.sqrt(float(slack2))
-        if dist <= lim:
+        slack2 = sum((Fraction(math.ulp(a)) / 2 + Fraction(1, 2 ** 1073)) ** 2 for a in x)
+        # dist <= bound + slack  <=>  d2 <= bound^2 + 2 bound slack + slack^2; compared exactly up to the one square root
+        slack = Fraction(math.isqrt(slack2.numerator * slack2.denominator) + 1, slack2.denominator)  # >= sqrt(slack2), exact
+        lim = bound + slack
+        if d2 <= lim * lim:
             return None
-        return f"outside: |x - x0| = {dist!r} > radius {radius!r}"
+        return f"outside: |x - x0|^2 = {_show(d2)} > (radius {radius!r} + rounding allowance {_show(slack)})^2"
     return f"answer: unknown op {o}"
 
 
@@ -608,8 +963,8 @@ def compare(aug, impl, model):
 def classify(op, kind, detail):
     try:
         t, o = _head(op)
-        if o == "gboost":
-            o = "gboost-" + t.s()
+        if o in ("gboost", "sampler", "hist", "unseeded"):
+            o = o + "-" + t.s()
     except Exception:
         return None
     if kind == "oracle":
